@@ -56,6 +56,25 @@ def model_check(progs: List[dict], switches: Dict[str, bool], async_sched: bool 
 
     simulate = N: random behaviours instead (TLC -simulate), N per program on average.
     """
+    CHUNK = 5000
+    if not simulate and len(progs) > CHUNK:
+        # big families are explored in several TLC runs (every program is an initial state of its own, so the union of
+        # the runs is the exploration of the whole family); keeps the heap bounded
+        total = tlc.TlcResult()
+        total.ok = True
+        merged = {}  # type: Dict[int, list]
+        for off in range(0, len(progs), CHUNK):
+            r, many = model_check(progs[off:off + CHUNK], switches, async_sched, invariants, emit_logs, workers, view_no_log,
+                                  timeout, simulate, seed, depth)
+            total.states += r.states
+            total.distinct += r.distinct
+            total.depth = max(total.depth, r.depth)
+            total.wall += r.wall
+            merged.update(many)
+            if not r.ok:
+                total.ok, total.violated, total.error, total.raw, total.trace = False, r.violated, r.error, r.raw, r.trace
+                break
+        return total, merged
     wd = tlc.scratch_dir("icv-mc-")
     try:
         pfile = os.path.join(wd, "progs.ndjson")
